@@ -21,6 +21,11 @@ theorem file_complete (fs : FS) (t : List Nat) (k : Nat) (hk : 3 ≤ k) :
   match k, hk with
   | (n + 3), _ => simp [FS.apply]
 
+theorem store_result (fs : FS) (t : List Nat) :
+    ((storeResult fs t true).1.main = fs.main ∧ (storeResult fs t true).2 = true) ∧
+    ((storeResult fs t false).1.main = .tokens t ∧ (storeResult fs t false).1.tmp = .absent ∧ (storeResult fs t false).2 = false) := by
+  simp [storeResult, storeOps, FS.apply]
+
 /-! ### restart of a full Lifecycler: what `initRing` does with the entry the dead process left -/
 
 theorem init_died_joining {c : Cfg} {file : File} {d : Desc} {e : Inst} {shuf : List Nat} {now : Int} {gen : Gen} {fault : Fault}
